@@ -186,7 +186,7 @@ struct SockEngine : Engine {
             q.seq = (uint32_t)cfg.next(); q.ack = (uint32_t)cfg.next(); q.tcpflags = cfg.chance(0.6) ? TH_SYN : (TH_ACK | TH_PSH);
             q.payload = (q.l4 == 1) ? wl.bytes((size_t)cfg.range(1, 80)) : (q.l4 == 0 && !(q.tcpflags & TH_SYN) && cfg.chance(0.5)) ? wl.bytes((size_t)cfg.range(1, 40)) : (q.l4 == 3 || q.l4 == 6) ? wl.bytes((size_t)cfg.range(0, 48)) : Bytes();
             { Rng bp = root.fork(fmt("bigpayload%d", op).c_str()); if ((q.l4 == 1 || q.l4 == 3 || q.l4 == 6) && bp.chance(0.2)) q.payload = bp.bytes((size_t)bp.range(100, 1200));      // large echo / datagram payloads
-              Rng hs = root.fork(fmt("history%d", op).c_str()); if (!q.v6 && hs.chance(0.25)) q.hist = (int)hs.range(1, 2); }
+              Rng hs = root.fork(fmt("history%d", op).c_str()); if (!q.v6 && hs.chance(0.25)) q.hist = (int)hs.range(1, 2); if (q.v6 && hs.chance(0.25)) q.hist = (int)hs.range(3, 4); }
             q.id = (uint16_t)cfg.next(); q.seqn = (uint16_t)cfg.next(); q.qname = cfg.chance(0.5) ? "www.example.com" : "a.b";
             q.timeout_s = (uint32_t)cfg.range(1, 5); if (cfg.chance(0.15)) q.timeout_s = (uint32_t)cfg.range(6, 60); q.timeout_us = cfg.chance(0.5) ? 0 : (uint32_t)cfg.range(0, 999999);
             int64_t start = 1700000000LL * 1000000 + (int64_t)cfg.range(0, 86400) * 1000000 + (cfg.chance(0.3) ? (int64_t)cfg.range(990000, 999999) : (int64_t)cfg.range(0, 999999));
@@ -285,7 +285,9 @@ struct SockEngine : Engine {
             default: { ICMPv6* i = new ICMPv6(ICMPv6::ECHO_REQUEST); i->identifier(q.id); i->sequence(q.seqn); if (!q.payload.empty()) i->inner_pdu(RawPDU(q.payload.data(), (uint32_t)q.payload.size())); l4.reset(i); break; }
         }
         std::unique_ptr<PDU> l3;
-        if (q.v6) { IPv6* ip = new IPv6(IPv6Address(q.dst.b), IPv6Address(q.src.b)); ip->hop_limit(q.ttl); l3.reset(ip); }
+        if (q.v6) { IPv6* ip = new IPv6(IPv6Address(q.dst.b), IPv6Address(q.src.b)); ip->hop_limit(q.ttl);
+            if (q.hist >= 3) { const uint8_t padn[6] = { 1, 4, 0, 0, 0, 0 }; for (int i = 0; i < q.hist - 2; ++i) ip->add_header(IPv6::ext_header(IPv6::DESTINATION_ROUTING_OPTIONS, padn, padn + 6)); }   /* one or two Destination Options headers (PadN) */
+            l3.reset(ip); }
         else { IP* ip = new IP(IPv4Address(q.dst.str()), IPv4Address(q.src.str())); ip->ttl(q.ttl); ip->tos(q.tos); ip->id(q.ipid); const IP::option_identifier noop(IP::NOOP, IP::CONTROL, 0);
             if (q.hist == 1 && q.ipopt) { (void)ip->serialize(); }      /* the object went over the wire once before the application added options to it */
             if (q.ipopt || q.hist == 2) { for (int i = 0; i < 4; ++i) ip->add_option(IP::option(noop)); }
@@ -319,6 +321,9 @@ struct SockEngine : Engine {
                     if (c == "recvfrom") { simnet::fault_recvfrom[nth] = err; if (k.num("drop")) simnet::fault_recvfrom_drop[nth] = 1; } else if (c == "select") simnet::fault_select[nth] = err; else simnet::fault_sendto[nth] = err; }
             }
             std::unique_ptr<Tins::PDU> req = build(q);
+            // a request that is sent again (a retry after a time-out) must go out as the same frame: serializing leaves the object as it was
+            if (q.hist) { st.inc("chk.request_serializes_the_same_twice"); Tins::PDU::serialization_type s1 = req->serialize(), s2 = req->serialize();
+                if (s1 != s2) return Verdict::bad("sock:request-changes-between-sends", fmt("op %d: the second serialization of the same request object differs from the first (%zu / %zu bytes)", op, s1.size(), s2.size()), stepno); }
             Tins::PacketSender sender(Tins::NetworkInterface::from_index(1), q.timeout_s, q.timeout_us);
             // the ICMP error quoting exactly our header needs the bytes libtins will send: serialize a clone (same fields => same bytes)
             if (!own_unreach.empty()) {
